@@ -346,6 +346,16 @@ def _whole_one(args):
                     "reporting_delay": 2})
         air["follow_up"].update({"delay": 10, "redundancy_filter": rng.choice(["recent", "average"]),
                                  "threshold": 1.0, "proportion": 1.0, "interaction_priority": "threshold"})
+    if wide is None and history is None and k % 4 == 2 and "AIR" in cfg.get("methods", {}):
+        # second stress configuration: the follow-up method finds nothing to tag (its detection limit lies
+        # above every leak), so each completed follow-up survey is a tagging-capable survey that tags nothing;
+        # weekly screening with a reporting delay of 5 days leaves screenings pending across such surveys
+        air = cfg["methods"]["AIR"]
+        air.update({"surveys_per_year": 52, "reporting_delay": 5})
+        air["follow_up"].update({"delay": 0, "threshold": 1.0, "proportion": 1.0, "interaction_priority": "threshold",
+                                 "redundancy_filter": rng.choice(["recent", "max"])})
+        fu_name = air["follow_up"]["preferred_method"]
+        cfg["methods"][fu_name]["mdl"] = 64.0
     what = None
     if history is not None:
         # "history" shape: an earlier run in the SAME folder differed in one defining leaf; the run the user
@@ -552,7 +562,13 @@ def check_trace(cfg, tr):
                     continue
             _, day, sched, entry, site, rate = ev[:6]
             latest = ev[6] if kind == "fuflag" else None
-            tagday = ev[8] if kind == "fuflag" else None
+            # the site's latest tagging survey: completion day of its latest component-level survey in the
+            # observed survey log (whether or not it tagged anything) — not the site object's own record
+            tagday = last_tag.get(site) if kind == "fuflag" else None
+            if kind == "fuflag" and ev[8] is not None and tagday is not None and ev[8] != tagday:
+                viol.append(("C09:whole:tagging-survey-not-recorded", "a completed component-level survey of the site is "
+                             "not what the site reports as its latest tagging survey",
+                             {"event": ev, "latest_completed_component_survey": tagday}))
             by = next((m for m in screening if in_update.get(m)), None)
             if by is not None and sched in fus:
                 stats["flags"] += 1
@@ -650,7 +666,7 @@ def wholerun_oracle(ctx):
     if not os.path.exists(os.path.join(core.VERIF, "harness", "wholerun.py")):
         ctx.note("whole-run stage skipped: harness/wholerun.py absent")
         return
-    n = ctx.pick(2, 12)
+    n = ctx.pick(3, 12)
     jobs = [(ctx.seed, k, None) for k in range(n)]
     # wide configurations: one with every tag, the others with the tags that touch the follow-up chain
     nw = ctx.pick(3, 10)
